@@ -254,6 +254,25 @@ def g_broadcast_to(rng):
     return [lab(bpartner(rng, t)), NONE, NONE], t
 
 
+def g_bcast_small_partner(rng):
+    """a broadcast to t (some NON-leading axis stretched where possible); b broadcasts with t without forcing t's stretched extents"""
+    t = rshape(rng, 2, 4)
+    sa = list(t)
+    k = rng.randrange(1, len(t))
+    sa[k] = 1
+    for i in range(len(sa)):
+        if i != k and rng.random() < 0.3:
+            sa[i] = 1
+    if rng.random() < 0.4:
+        sa = sa[rng.randint(0, k):]
+    sb = [1] * rng.randint(1, len(t))
+    for i in range(len(sb)):
+        j = len(t) - len(sb) + i
+        if j != k and rng.random() < 0.5:
+            sb[i] = t[j]
+    return [lab(sa), lab(sb, 7), NONE], t
+
+
 def g_tile(rng):
     s = rshape(rng, 1, 3, 24)
     reps = [rng.randint(1, 3) for _ in range(len(s))]
@@ -538,6 +557,10 @@ _P = [
     Pipe(60, 3, "matmul_a_transpose_b", "matmul(a,transpose(b,axes))", 2, "i", 1, g_matmul_tr, lambda a, b, c, p: a @ np.transpose(b, p)),
     Pipe(61, 3, "exp_negative_multiply", "exp(negative(multiply(a,b)))", 3, "f", 1, g_mul_f, lambda a, b, c, p: np.exp(-(a * b)), True),
     Pipe(62, 3, "outer_add_add", "outer_add(add(a,b),c)", 2, "i", 1, g_outer_add3, lambda a, b, c, p: np.add.outer(a + b, c)),
+    Pipe(64, 16, "subtract_broadcast_to_b", "subtract(broadcast_to(a,shape),b)", 2, "i", 1, g_bcast_small_partner, lambda a, b, c, p: np.broadcast_to(a, p) - b),
+    Pipe(65, 16, "negative_broadcast_to", "negative(broadcast_to(a,shape))", 2, "i", 1, g_bcast_small_partner, lambda a, b, c, p: -np.broadcast_to(a, p)),
+    Pipe(66, 16, "exp_multiply_broadcast_to_scalar", "exp(multiply(broadcast_to(a,shape),0.5))", 3, "f", 1, g_bcast_small_partner,
+         lambda a, b, c, p: np.exp(np.broadcast_to(a, p) * np.float32(0.5)), True),
     Pipe(63, 15, "concatenate_a_flip_b", "concatenate(a,flip(b,axis2),axis)", 2, "i", 1, g_concat_flip, lambda a, b, c, p: np.concatenate([a, np.flip(b, p[1])], p[0])),
 ]
 
@@ -575,7 +598,7 @@ def _read_def():
 
 
 _read_def()
-QUICK_GROUPS = [0, 1, 2, 3]
+QUICK_GROUPS = [0, 1, 2, 3, 16]
 ALL_GROUPS = sorted({p.group for p in _P})
 # pipelines whose extraction (get_function_composition) reads a dead temporary on the unchanged tree (findings/c13_*.md)
 UAS_CLASSES = ("ufunc_view_op",)
